@@ -56,11 +56,12 @@ CHECKS = {
         'real': REAL_COMMON,
         'stub': STUB_COMMON,
         'assumptions': ASSUME_COMMON + [
-            'a stop request is issued only after every producer has registered with the queue '
-            '(a producer that starts after a plain stop is not part of this check)',
+            'in two thirds of the stop runs the request is issued only after every producer has registered; '
+            'in the rest it may precede a producer\'s registration (the producer must then return at once)',
             'no upper bound on when a timeout fires is asserted (get/put restart their full timeout '
             'after every notification); only that it fires, and not before the configured time'],
-        'probes': ['probe:stop_while_producer_blocked', 'probe:stop_while_consumer_blocked'],
+        'probes': ['probe:stop_while_producer_blocked', 'probe:stop_while_consumer_blocked',
+                   'probe:stop_before_all_producers_registered'],
     },
     'C13': {
         'families': [['c13:par', 1.0]],
